@@ -84,3 +84,6 @@ CHECKS["C21"] = ("model-based (stateful) property-based testing: generated comma
 CHECKS["C19"] = ("metamorphic property-based testing: valid history H vs H with generated rejected commands inserted; answers compared literally, artefacts by the C03/C06/C08 validators",
                  "Generated histories with 1-3 rejected commands from a catalogue of interpreter failure points; the rest of the script must behave as if the commands were omitted (probe commands re-use the names they mention). Exploration only.",
                  REF + "; only inserted commands that really answered (error ..) are judged", "DESIGN.md §4 C19")
+CHECKS["C17"] = ("round-trip property-based testing: generated scripts with tortured (quoted / reserved / clashing) names; every printed model, value, core, interpolant and dumped query is read back by z3/cvc5/opensmt and compared semantically",
+                 "Generated scripts over a name-torture pool; printed SMT-LIB must be readable by another tool and denote the same object. Known findings are keyed by violation kind plus the name feature that triggers them (coarser than for other properties). Exploration only.",
+                 "z3 python and cvc5 as independent readers (|as| and |_| excluded: z3 refuses them as declared names)", "DESIGN.md §4 C17")
